@@ -292,6 +292,22 @@ def specTxWith (env : Env) (txComplete : Bool) (db : Db) (ctx : Ctx) (body : Lis
   -- a later step is rejected is judged on a database the spec does not know: not specified either
   else { ok := false, db := db, fired := [], ctx := b.ctx, specified := b.specified }
 
+/-- a transaction worked on through a context from NewTxMutateContext: succeeds iff no step of its
+    body is rejected; then the commit actions registered on that context run once, every accepted
+    change is announced once and the tx-complete listeners run once; pre-commit actions registered on such
+    a context are nobody's business (never run, cannot fail the transaction — the code's behaviour); on
+    failure nothing changes and nothing runs -/
+def specRawTx (env : Env) (db : Db) (body : List Step) : SpecOut :=
+  let b := specSteps env body { accepted := true, db := db, flows := [], ctx := Ctx.empty, specified := true }
+  if b.accepted then
+    { ok := true, db := b.db,
+      fired := [Fired.commitActions b.ctx.commitActions]
+        ++ announceTo .P b.flows (indexed env.regsP) ++ announceTo .C b.flows (indexed env.regsC)
+        ++ announceTo .D b.flows (indexed env.regsD)
+        ++ (List.range env.txListeners).map Fired.txComplete,
+      ctx := b.ctx, specified := b.specified }
+  else { ok := false, db := db, fired := [], ctx := b.ctx, specified := b.specified }
+
 /-- The context outlives the transaction; a Batch whose body fails registers everything a second
     time (the body is re-run), which matters only if the context is used again. -/
 def specTx (env : Env) (db : Db) (prevCtx : Ctx) (tx : TxSpec) : SpecOut :=
@@ -303,6 +319,7 @@ def specTx (env : Env) (db : Db) (prevCtx : Ctx) (tx : TxSpec) : SpecOut :=
     -- a second execution that is accepted commits and announces everything exactly once
     let a := specTxWith env true db ctx tx.body
     if a.ok then a else specTxWith env.later true db a.ctx (laterBody tx.body)
+  | .raw => specRawTx env db tx.body
 
 def specCase (env : Env) : List TxSpec → Db → Ctx → List SpecOut
   | [], _, _ => []
